@@ -125,7 +125,7 @@ theorem unMarks_noinv {f : Value → Res Value} (hf : NoInv1 f) {a r : Value}
 
 theorem commutes_addU : Commutes2 addU := .of_strip (fun _ _ hx hy => addU_strip hx hy) addU_clean
 theorem commutes_subU : Commutes2 subU := .of_strip (fun _ _ hx hy => subU_strip hx hy) subU_clean
-theorem commutes_mulU : Commutes2 mulU := .of_strip (fun _ _ hx hy => mulU_strip hx hy) mulU_clean
+theorem commutes_mulU : Commutes2 mulUC := .of_strip (fun _ _ hx hy => mulU_strip hx hy) mulU_clean
 theorem commutes_divU : Commutes2 divU := .of_strip (fun _ _ hx hy => divU_strip hx hy) divU_clean
 theorem commutes_modU : Commutes2 modU := fun _ _ hx hy _ _ => Res.Rel.map_eq (modU_rel hx hy)
 theorem commutes_lessThanU : Commutes2 lessThanU := .of_strip (fun _ _ hx hy => lessThanU_strip hx hy) lessThanU_clean
@@ -235,6 +235,101 @@ theorem hasElement_noinv {v e r : Value} {h : Option Int} (hr : hasElement v e h
     rw [hasElement_clean_operands h h'.1 h'.2] at hr
     rw [((hasElementU_clean _ _ _).of_eq hr).marksDeep] at hm; simp at hm
 
+/-! ### the three compositions: `NotEqual`, `LessThanOrEqualTo`, `GreaterThanOrEqualTo` -/
+
+theorem Clean.marksWF {r : Value} (h : r.Clean) : r.MarksWF := ⟨markerWF_of_clean _ h, setsClean_of_clean _ h⟩
+
+theorem isMarked_of_clean {p : Payload} (h : p.containsMarked = false) : p.isMarked = false := by
+  cases p <;> simp_all [Payload.containsMarked, Payload.isMarked]
+
+/-- a clean result with a mark set put on it is a well-formed marked value -/
+theorem Clean.withMarks_wf {r : Value} (h : r.Clean) (ms : List String) : (r.withMarks ms).MarksWF := by
+  have hm : r.v.isMarked = false := isMarked_of_clean h
+  have hu : r.v.unmark1 = r.v := Payload.unmark1_eq_of_not_marked hm
+  show (Payload.withMarks r.v ms).markerWF = true ∧ (Payload.withMarks r.v ms).setsClean = true
+  rw [Payload.withMarks_def]
+  split
+  · exact h.marksWF
+  · rename_i hne
+    rw [hu]
+    exact ⟨by simp [Payload.markerWF, hne, hm, markerWF_of_clean _ h], by simpa [Payload.setsClean] using setsClean_of_clean _ h⟩
+
+theorem binMarks_wf {f : Value → Value → Res Value} (hc : ∀ x y, (f x y).All Clean) {a b r : Value}
+    (h : binMarks f a b = .ok r) : r.MarksWF := by
+  unfold binMarks at h
+  split at h
+  · obtain ⟨r0, h0, rfl⟩ := Res.map_eq_ok.mp h
+    exact ((hc _ _).of_eq h0).withMarks_wf _
+  · exact ((hc _ _).of_eq h).marksWF
+
+theorem equals_wf {a b r : Value} (h : equals a b = .ok r) : r.MarksWF := by
+  unfold equals at h
+  split at h
+  · obtain ⟨r0, h0, rfl⟩ := Res.map_eq_ok.mp h
+    exact ((equalsP_clean _ _ _ _).of_eq h0).withMarks_wf _
+  · exact ((equalsP_clean _ _ _ _).of_eq h).marksWF
+
+theorem Res.Rel.of_map_eq {α β} {f : α → β} {m : Res α} {m' : Res β} (h : m.map f = m') :
+    Res.Rel (fun a b => f a = b) m m' := by
+  subst h; cases m <;> simp [Res.Rel, Res.map]
+
+theorem bind_eq_ok' {α β} {m : Res α} {f : α → Res β} {b : β} (h : (m >>= f) = .ok b) :
+    ∃ a, m = .ok a ∧ f a = .ok b := by
+  cases m <;> simp_all
+
+section
+variable {a b : Value} (ha : a.MarksWF) (hb : b.MarksWF)
+include ha hb
+
+/-- `cmp.Or(Equals)` for a comparison core `cmpU` -/
+theorem cmpOrEquals_commutes {cmpU : Value → Value → Res Value} (hcm : Commutes2 cmpU)
+    (hcl : ∀ x y, (cmpU x y).All Clean) :
+    (do let l ← binMarks cmpU a b; let e ← equals a b; Value.or l e : Res Value).map unmarkDeep =
+      (do let l ← binMarks cmpU a.unmarkDeep b.unmarkDeep; let e ← equals a.unmarkDeep b.unmarkDeep; Value.or l e) := by
+  apply Res.Rel.map_eq
+  apply Res.Rel.bind' (Res.Rel.of_map_eq (binMarks_commutes hcm ha hb))
+  intro l l' hl hlok
+  apply Res.Rel.bind' (Res.Rel.of_map_eq (equals_commutes a b))
+  intro e e' he heok
+  subst hl he
+  exact Res.Rel.of_map_eq (binMarks_commutes commutes_orU (binMarks_wf hcl hlok) (equals_wf heok))
+
+end
+
+theorem cmpOrEquals_kept {cmpU : Value → Value → Res Value} {a b r : Value}
+    (h : (do let l ← binMarks cmpU a b; let e ← equals a b; Value.or l e : Res Value) = .ok r) {m : String}
+    (hm : m ∈ a.marksDeep ∨ m ∈ b.marksDeep) : m ∈ r.marks := by
+  obtain ⟨l, _, h⟩ := bind_eq_ok' h
+  obtain ⟨e, he, h⟩ := bind_eq_ok' h
+  exact binMarks_top h (.inr (equals_deep he hm))
+
+theorem cmpOrEquals_noinv {cmpU : Value → Value → Res Value} (hcl : ∀ x y, (cmpU x y).All Clean) {a b r : Value}
+    (h : (do let l ← binMarks cmpU a b; let e ← equals a b; Value.or l e : Res Value) = .ok r) {m : String}
+    (hm : m ∈ r.marksDeep) : m ∈ a.marksDeep ∨ m ∈ b.marksDeep := by
+  obtain ⟨l, hl, h⟩ := bind_eq_ok' h
+  obtain ⟨e, he, h⟩ := bind_eq_ok' h
+  rcases binMarks_noinv (.of_clean orU_clean) h hm with h1 | h1
+  · exact binMarks_noinv (.of_clean hcl) hl h1
+  · exact equals_noinv he h1
+
+theorem notEqual_kept {a b r : Value} (h : notEqual a b = .ok r) {m : String}
+    (hm : m ∈ a.marksDeep ∨ m ∈ b.marksDeep) : m ∈ r.marks := by
+  obtain ⟨e, he, h⟩ := bind_eq_ok' h
+  exact unMarks_top h (equals_deep he hm)
+
+theorem notEqual_noinv {a b r : Value} (h : notEqual a b = .ok r) {m : String} (hm : m ∈ r.marksDeep) :
+    m ∈ a.marksDeep ∨ m ∈ b.marksDeep := by
+  obtain ⟨e, he, h⟩ := bind_eq_ok' h
+  exact equals_noinv he (unMarks_noinv (.of_clean notU_clean) h hm)
+
+theorem notEqual_commutes (a b : Value) : (notEqual a b).map unmarkDeep = notEqual a.unmarkDeep b.unmarkDeep := by
+  unfold notEqual
+  apply Res.Rel.map_eq
+  apply Res.Rel.bind' (Res.Rel.of_map_eq (equals_commutes a b))
+  intro e e' he heok
+  subst he
+  exact Res.Rel.of_map_eq (unMarks_commutes commutes_notU (equals_wf heok))
+
 end Value
 end CtyModel
 
@@ -278,6 +373,9 @@ theorem run_commutes (op : Op) (args : List Value) (h : ArgsWF args) :
     · exact binMarks_commutes commutes_indexU ha hb
     · exact binMarks_commutes commutes_hasIndexU ha hb
     · exact hasElement_commutes _ ha
+    · exact notEqual_commutes a b
+    · exact cmpOrEquals_commutes ha hb commutes_lessThanU lessThanU_clean
+    · exact cmpOrEquals_commutes ha hb commutes_greaterThanU greaterThanU_clean
   · cases op <;> rfl
 
 /-- NO LOSS: every promised mark of every operand (top-level marks; marks at every
@@ -303,6 +401,10 @@ theorem run_kept (op : Op) (args : List Value) (r : Value) (h : op.run args = .o
     all_goals first
       | exact equals_deep h (.inl hm)
       | exact equals_deep h (.inr hm)
+      | exact notEqual_kept h (.inl hm)
+      | exact notEqual_kept h (.inr hm)
+      | exact cmpOrEquals_kept h (.inl hm)
+      | exact cmpOrEquals_kept h (.inr hm)
       | exact hasElement_kept h (.inl hm)
       | exact hasElement_kept h (.inr hm)
       | exact binMarks_top h (.inl hm)
@@ -336,6 +438,9 @@ theorem run_noinv (op : Op) (args : List Value) (r : Value) (h : op.run args = .
       · exact binMarks_noinv noinv_indexU h hm
       · exact binMarks_noinv (.of_clean hasIndexU_clean) h hm
       · exact hasElement_noinv h hm
+      · exact notEqual_noinv h hm
+      · exact cmpOrEquals_noinv lessThanU_clean h hm
+      · exact cmpOrEquals_noinv greaterThanU_clean h hm
     rcases key with k | k
     · exact ⟨x, by simp, k⟩
     · exact ⟨y, by simp, k⟩
